@@ -14,6 +14,7 @@ import (
 	"bytes"
 	"encoding/binary"
 	"fmt"
+	"os"
 	"sort"
 	"strings"
 	"testing"
@@ -40,17 +41,35 @@ type nspec struct {
 	Name   string `json:"n"`
 	Req    string `json:"r"` // "n" no requirement, "y" requires a permission the player has, "d" one it lacks
 	Redir  int    `json:"t"` // -1 none, -2 the proxy root, >=0 node index
+	// Alias: a second top-level literal that SHARES the child node objects of node 0 (what
+	// command.Manager.RegisterWithAliases builds): the proxy tree is a DAG, not a tree.
+	Alias bool `json:"alias,omitempty"`
 }
 
+// Prior: what happened on the SAME Proxy before the merge that is checked.
+//
+//	""                        nothing (fresh proxy)
+//	"privileged-player-first" another player who passes every requirement received its merged tree first
+//	"restricted-player-first" the checked player is the privileged one; a player lacking "deny" merged first
+//	"same-player-revoked"     the checked player itself merged first while it still held every permission
 type caseSpec struct {
 	Proxy   []nspec `json:"proxy"`
 	Backend int     `json:"backend"`
+	Prior   string  `json:"prior,omitempty"`
 }
+
+var priors = []string{"privileged-player-first", "restricted-player-first", "same-player-revoked"}
+
+// c23HoldsDeny: the player whose tree is being checked also holds the permission "deny" (then every node is usable).
+var c23HoldsDeny bool
 
 func (c caseSpec) String() string {
 	var sb strings.Builder
 	for i, n := range c.Proxy {
 		fmt.Fprintf(&sb, "%d:%s%s/%s", i, n.Kind, n.Name, n.Req)
+		if n.Alias {
+			sb.WriteString("=alias(0)")
+		}
 		if n.Parent >= 0 {
 			fmt.Fprintf(&sb, "^%d", n.Parent)
 		}
@@ -60,10 +79,13 @@ func (c caseSpec) String() string {
 		sb.WriteByte(' ')
 	}
 	fmt.Fprintf(&sb, "| backend#%d", c.Backend)
+	if c.Prior != "" {
+		fmt.Fprintf(&sb, " | prior=%s", c.Prior)
+	}
 	return sb.String()
 }
 
-func usable(s []nspec, i int) bool { return s[i].Req != "d" }
+func usable(s []nspec, i int) bool { return s[i].Req != "d" || c23HoldsDeny }
 func visible(s []nspec, i int) bool {
 	for ; i >= 0; i = s[i].Parent {
 		if !usable(s, i) {
@@ -355,6 +377,12 @@ func buildProxyTree(root *brigodier.RootCommandNode, s []nspec, rec *reqRec) []b
 			attach(i)
 		}
 	}
+	for i := range s {
+		if s[i].Alias {
+			// shallow copy as in command.Manager.shallowCopy: the alias gets the SAME child objects
+			nodes[0].ChildrenOrdered().Range(func(_ string, c brigodier.CommandNode) bool { nodes[i].AddChild(c); return true })
+		}
+	}
 	return nodes
 }
 
@@ -591,9 +619,50 @@ func runCase(cs caseSpec) (fails []fail, classes []string) {
 	client := newVConn("client", version.Minecraft_1_20_3.Protocol, state.Play)
 	cfg := &config.Config{AnnounceProxyCommands: true}
 	mgr := &detEvent{}
-	player, px := newVPlayer(client, cfg, mgr, map[string]bool{"allow": true})
+	perms := map[string]bool{"allow": true}
+	player, px := newVPlayer(client, cfg, mgr, perms)
 	rec := &reqRec{player: player}
 	proxyNodes := buildProxyTree(&px.command.Root, s, rec)
+	c23HoldsDeny = cs.Prior == "restricted-player-first"
+	if c23HoldsDeny {
+		perms["deny"] = true
+	}
+	if cs.Prior != "" {
+		// an earlier merge on the same Proxy (own backend tree, own connection); only "it must not panic" is
+		// asserted about it, the subject is what the LATER merge hands to the checked player
+		first := player
+		switch cs.Prior {
+		case "privileged-player-first":
+			first, _ = newVPlayer(newVConn("client0", version.Minecraft_1_20_3.Protocol, state.Play), cfg, mgr, map[string]bool{"allow": true, "deny": true})
+			first.sessionHandlerDeps = player.sessionHandlerDeps // the SAME proxy
+		case "restricted-player-first":
+			first, _ = newVPlayer(newVConn("client0", version.Minecraft_1_20_3.Protocol, state.Play), cfg, mgr, map[string]bool{"allow": true})
+			first.sessionHandlerDeps = player.sessionHandlerDeps
+		case "same-player-revoked":
+			perms["deny"] = true
+		default:
+			panic("prior " + cs.Prior)
+		}
+		rec.player = first
+		sc0 := &serverConnection{player: first, log: logr.Discard()}
+		sc0.connection = newVConn("backend0", version.Minecraft_1_20_3.Protocol, state.Play)
+		h0 := &backendPlaySessionHandler{serverConn: sc0, bungeeCordMessageResponder: bungeecord.NopMessageResponder, log: logr.Discard()}
+		if panicked, pv := vrt.Catch(func() {
+			h0.handleAvailableCommands(&packet.AvailableCommands{RootNode: buildBackend(cs.Backend).root})
+		}); panicked {
+			bad("panic", "the prior merge (%s) panicked: %v", cs.Prior, pv)
+			return fails, []string{"outcome:panic"}
+		}
+		if cs.Prior == "same-player-revoked" {
+			delete(perms, "deny")
+			client.packets = nil
+		}
+		rec.player = player
+		rec.wrongSrc = false
+		for i := range rec.evals {
+			rec.evals[i] = 0
+		}
+	}
 	isProxyOriginal := map[brigodier.CommandNode]int{}
 	for i, n := range proxyNodes {
 		isProxyOriginal[n] = i
@@ -700,6 +769,9 @@ func runCase(cs caseSpec) (fails []fail, classes []string) {
 	var walk func(n brigodier.CommandNode, path string)
 	walkChildren := func(n brigodier.CommandNode, specIdx int, path string) {
 		present := map[int]bool{}
+		if specIdx >= 0 && s[specIdx].Alias {
+			specIdx = 0 // an alias shows (its own filtered view of) the children of node 0
+		}
 		n.ChildrenOrdered().Range(func(_ string, c brigodier.CommandNode) bool {
 			if bt.all[c] {
 				if specIdx != -1 {
@@ -797,6 +869,14 @@ func isLiteral(n brigodier.CommandNode) bool { _, ok := n.(*brigodier.LiteralCom
 func caseClasses(cs caseSpec) []string {
 	s := cs.Proxy
 	cl := []string{fmt.Sprintf("backend#%d", cs.Backend)}
+	if cs.Prior != "" {
+		cl = append(cl, "prior:"+cs.Prior)
+	}
+	for _, n := range s {
+		if n.Alias {
+			cl = append(cl, "alias-shares-children")
+		}
+	}
 	tops, denTop, denNested, hidden, redirs := 0, 0, 0, 0, 0
 	for i, n := range s {
 		if n.Parent == -1 {
@@ -842,6 +922,40 @@ func caseClasses(cs caseSpec) []string {
 		cl = append(cl, "redirect-cycle")
 	}
 	return cl
+}
+
+// forEachExtraCase: dimensions beyond "one fresh proxy, one tree-shaped dispatcher".
+func forEachExtraCase(thorough bool, f func(cs caseSpec)) {
+	reqs := []string{"n", "d"}
+	if thorough {
+		reqs = []string{"n", "y", "d"}
+	}
+	// (1) alias DAG: every single-command tree a{...} plus a top-level alias b sharing a's child objects,
+	// the alias having its own requirement; every backend variant.
+	for _, a := range subtrees("a", reqs) {
+		for _, rq := range reqs {
+			t := append(append([]nspec(nil), a...), nspec{Parent: -1, Kind: "l", Name: "b", Req: rq, Redir: -1, Alias: true})
+			for b := 0; b < nBackends; b++ {
+				f(caseSpec{Proxy: t, Backend: b})
+			}
+		}
+	}
+	// (2) an earlier merge on the same Proxy: every tree of the tier's family with <= 4 (thorough: 5) nodes,
+	// backend variants 0 and 5, every prior.
+	maxNodes := 4
+	if thorough {
+		maxNodes = 5
+	}
+	forEachProxyTree(thorough, func(t []nspec) {
+		if len(t) == 0 || len(t) > maxNodes {
+			return
+		}
+		for _, pr := range priors {
+			for _, b := range []int{0, 5} {
+				f(caseSpec{Proxy: t, Backend: b, Prior: pr})
+			}
+		}
+	})
 }
 
 func TestVerif(t *testing.T) {
@@ -893,6 +1007,33 @@ func TestVerif(t *testing.T) {
 				if idx%9973 == 0 {
 					r.Sample(cs.String())
 				}
+			}
+		})
+		if os.Getenv("VERIF_SKIP_NEW") != "" { // mutant bookkeeping only: shows that a mutant is caught by the added dimensions alone
+			r.NotExhaustive("VERIF_SKIP_NEW set: alias/prior-merge cases skipped")
+			return
+		}
+		forEachExtraCase(r.Thorough(), func(cs caseSpec) {
+			idx++
+			if stop || !r.Mine(idx) {
+				return
+			}
+			if idx%512 == 0 && r.Expired() {
+				stop = true
+				return
+			}
+			report(cs)
+			c23HoldsDeny = cs.Prior == "restricted-player-first"
+			den, vis := false, false
+			for i := range cs.Proxy {
+				den = den || !usable(cs.Proxy, i)
+				vis = vis || visible(cs.Proxy, i)
+			}
+			if den && vis {
+				r.Nontrivial(1)
+			}
+			if idx%4999 == 0 {
+				r.Sample(cs.String())
 			}
 		})
 	})
